@@ -552,10 +552,10 @@ def run(ctx):
     rep.setcount('external_function_references_examined', tot['ext'])
     rep.setcount('prefix_symbol_and_pair_checks', n4)
     rep.setcount('positive_control_reports', nctl)
-    rep.floor('C12.R1', 2200, 'one per variant (globals) + one per function (writes) in >=47 isolated variants of >=40 functions')
-    rep.floor('C12.R2', 2000, 'one per scanner function outside the 6 exempt ones')
-    rep.floor('C12.R3', 700, '>=14 external functions referenced in each of >=47 variants')
-    rep.floor('C12.R4', 200, '>=30 strong externals in each of 7 prefixed variants + pairwise disjointness')
+    rep.floor('C12.R1', 2800, 'measured 3093: one per variant (globals) + one per function (writes) in 65 isolated variants of 41-56 functions')
+    rep.floor('C12.R2', 2500, 'measured 2749: one per scanner function outside the exempt ones')
+    rep.floor('C12.R3', 1000, 'measured 1161: 14-30 external functions referenced in each of 65 variants')
+    rep.floor('C12.R4', 270, 'measured 306: 30-52 strong externals in each of 7 prefixed variants + pairwise disjointness')
     rep.undecided += ['token streams under real interleavings (no scanner is run)', 'thread safety of libc beyond the POSIX not-thread-safe list',
                       'user actions, user-supplied yyalloc/yyread and YY_USER_* hooks',
                       'go back end prefix handling (go-flex.skl documents that prefix does not rename symbols)']
